@@ -687,6 +687,18 @@ func (e *Exec) deepEq(x, y Value) *Term {
 			r = e.tt.And(r, e.deepEq(xv[i], yv[i]))
 		}
 		return r
+	case Iface:
+		yv, ok := y.(Iface)
+		if !ok {
+			return e.tt.False
+		}
+		if xv.t == nil || yv.t == nil {
+			return e.tt.Bool(xv.t == nil && yv.t == nil)
+		}
+		if !types.Identical(xv.t, yv.t) {
+			return e.tt.False
+		}
+		return e.deepEq(xv.v, yv.v)
 	}
 	unsupported("reflect.DeepEqual on %T", x)
 	return nil
